@@ -96,6 +96,38 @@ impl<R: Host, IO> Connection<R, IO> {
 
 //@check_struct file=actix-tls/src/connect/openssl.rs name=TlsConnectorService fields=connector
 pub struct TlsConnectorService { pub connector: SslConnector }
+impl SslConnector { pub uninterp spec fn cfg(&self) -> int; }
+impl Clone for SslConnector { #[verifier::external_body] fn clone(&self) -> (r: SslConnector) ensures r.cfg() == self.cfg() { unimplemented!() } }
+/// actix_utils::future::{ok, Ready}
+#[verifier::reject_recursive_types(T)]
+pub struct Ready<T> { pub val: Option<T> }
+pub fn ok<T, E>(t: T) -> (r: Ready<Result<T, E>>) ensures r.val == Some(Ok::<T, E>(t)) { Ready { val: Some(Ok(t)) } }
+//@check_struct file=actix-tls/src/connect/openssl.rs name=TlsConnector fields=connector
+pub struct TlsConnector { pub connector: SslConnector }
+impl TlsConnector {
+//@extract file=actix-tls/src/connect/openssl.rs item="impl TlsConnector / fn new" ret=r props=C19 name=openssl::factory_new
+//@spec
+    ensures r.connector == connector,
+//@end
+//@extract file=actix-tls/src/connect/openssl.rs item="impl TlsConnector / fn service" ret=r props=C19 name=openssl::factory_service
+//@spec
+    ensures r.connector == connector,
+//@end
+//@extract file=actix-tls/src/connect/openssl.rs item="impl Clone for TlsConnector / fn clone" ret=r props=C19 name=openssl::factory_clone sig_replace="fn clone(=>fn clone_("
+//@spec
+    ensures r.connector.cfg() == self.connector.cfg(),
+//@end
+//@extract file=actix-tls/src/connect/openssl.rs item="impl<R, IO> ServiceFactory<Connection<R, IO>> for TlsConnector / fn new_service" ret=r props=C19 name=openssl::factory_new_service sig_replace="fn new_service(&self, _: ())=>fn new_service(&self, _unused: ())"
+//@spec
+    ensures r.val matches Some(Ok(svc)) && svc.connector.cfg() == self.connector.cfg(),   // [C19] the factory's TLS configuration reaches every service
+//@end
+}
+impl TlsConnectorService {
+//@extract file=actix-tls/src/connect/openssl.rs item="impl Clone for TlsConnectorService / fn clone" ret=r props=C19 name=openssl::service_clone sig_replace="fn clone(=>fn clone_("
+//@spec
+    ensures r.connector.cfg() == self.connector.cfg(),
+//@end
+}
 #[verifier::reject_recursive_types(R)]
 #[verifier::reject_recursive_types(IO)]
 //@extract_type file=actix-tls/src/connect/openssl.rs item="struct ConnectFut<R, IO>"
